@@ -89,6 +89,9 @@ def make_error_calculator(case):
     from sparseSpACE.ErrorCalculator import ErrorCalculator, ErrorCalculatorSingleDimVolumeGuided, ErrorCalculatorExtendSplit
     mode = case.get('errcalc', 'lib')
     if mode == 'lib':
+        if case['strat'] == 'cell':
+            from sparseSpACE.ErrorCalculator import ErrorCalculatorSurplusCell
+            return ErrorCalculatorSurplusCell()
         return ErrorCalculatorSingleDimVolumeGuided() if case['strat'] == 'dw' else ErrorCalculatorExtendSplit()
     seed = mode[1]
 
@@ -135,9 +138,49 @@ def make_local_grid(case, a, b):
     raise ValueError(kind)
 
 
-def build(case, f=None, integration_cls=None, op=None):
-    """Returns (instance, operation, function, error_calculator). strat: 'dw' | 'es' | 'std' | 'da'.
-    op: an existing operation (with its grid and function) to be reused by a new strategy instance, as the repo's tests do."""
+def make_global_grid(case, a, b, op=None):
+    """fresh global (refinement-tree) grid of the kind named in case['ggrid'] (default: trapezoidal) for the dimension-wise strategy"""
+    from sparseSpACE import Grid as G
+    kind = case.get('ggrid', 'trap')
+    boundary = case.get('boundary', True)
+    mod = case.get('modified_basis', False)
+    if kind == 'trap':
+        return G.GlobalTrapezoidalGrid(a, b, boundary=boundary, modified_basis=mod)
+    if kind == 'trapw':                   # weighted by the distributions of an UncertaintyQuantification operation
+        return G.GlobalTrapezoidalGridWeighted(a, b, op, boundary=boundary)
+    if kind == 'simpson':
+        return G.GlobalSimpsonGrid(a, b, boundary=boundary, modified_basis=mod)
+    if kind == 'romberg':
+        return G.GlobalRombergGrid(a, b, boundary=boundary, modified_basis=mod)
+    if kind == 'highorder':
+        return G.GlobalHighOrderGrid(a, b, boundary=boundary, modified_basis=mod)
+    if kind.startswith('lagrange'):
+        return G.GlobalLagrangeGrid(a, b, boundary=boundary, modified_basis=mod, p=int(kind[-1]))
+    if kind.startswith('bspline'):
+        return G.GlobalBSplineGrid(a, b, boundary=boundary, modified_basis=mod, p=int(kind[-1]))
+    raise ValueError(kind)
+
+
+def make_operation(case, f, a, b, integration_cls=None, uq_cls=None, ref=None):
+    """the GridOperation of the case: Integration (default) or UncertaintyQuantification (case['op'] = ['uq', distribution]);
+    the grid is attached by the caller"""
+    opk = case.get('op', 'int')
+    if opk == 'int':
+        if integration_cls is None:
+            from sparseSpACE.GridOperation import Integration as integration_cls
+        return integration_cls(f, grid=None, dim=len(a), reference_solution=ref)
+    if uq_cls is None:
+        from sparseSpACE.GridOperation import UncertaintyQuantification as uq_cls
+    distr = opk[1]
+    distr = tuple(distr) if isinstance(distr, (list, tuple)) else distr
+    return uq_cls(f, distr, a, b, reference_solution=ref)
+
+
+def build(case, f=None, integration_cls=None, op=None, wrap=None, uq_cls=None):
+    """Returns (instance, operation, function, error_calculator). strat: 'dw' | 'es' | 'cell' | 'std' | 'da'.
+    op: an existing operation (with its grid and function) to be reused by a new strategy instance, as the repo's tests do.
+    wrap: optional function class -> subclass applied to the strategy class (used by C05 to mark the driver's main evaluation).
+    Every constructor option of the strategies can be given in the case; absent keys mean the library defaults used so far."""
     import numpy as np
     from sparseSpACE.Grid import TrapezoidalGrid, GlobalTrapezoidalGrid
     from sparseSpACE.GridOperation import Integration
@@ -151,36 +194,50 @@ def build(case, f=None, integration_cls=None, op=None):
     ref = None if case.get('ref') is None else np.array([float(x) for x in case['ref']])
     strat = case['strat']
     boundary = case.get('boundary', True)
+    wrap = wrap or (lambda cls: cls)
     if strat == 'dw':
         from sparseSpACE.spatiallyAdaptiveSingleDimension2 import SpatiallyAdaptiveSingleDimensions2
         if op is None:
-            grid = GlobalTrapezoidalGrid(a, b, boundary=boundary, modified_basis=False)
-            op = Integration(f, grid=grid, dim=dim, reference_solution=ref)
+            op = make_operation(case, f, a, b, integration_cls=Integration, uq_cls=uq_cls, ref=ref)
+            op.grid = make_global_grid(case, a, b, op)
         else:
             f = op.f
         eo = make_error_calculator(case)
-        sa = SpatiallyAdaptiveSingleDimensions2(a, b, operation=op, norm=norm_of(case), version=case.get('version', 6),
-                                                rebalancing=case.get('rebalancing', True))
+        kw = {}
+        for key, name in (('chebyshev', 'chebyshev_points'), ('dim_adaptive', 'dim_adaptive'), ('volume_weighting', 'use_volume_weighting'),
+                          ('force_balanced', 'force_balanced_refinement_tree'), ('margin', 'margin'), ('safety', 'rebalancing_safety_factor')):
+            if key in case:
+                kw[name] = case[key]
+        if case.get('grid_surplusses'):       # as the UQ tests do: the surplus grid is the operation's grid
+            kw['grid_surplusses'] = op.get_grid()
+        sa = wrap(SpatiallyAdaptiveSingleDimensions2)(a, b, operation=op, norm=norm_of(case), version=case.get('version', 6),
+                                                      rebalancing=case.get('rebalancing', True), **kw)
         return sa, op, f, eo
     if op is None:
-        grid = make_local_grid(case, a, b)
-        op = Integration(f, grid=grid, dim=dim, reference_solution=ref)
+        op = make_operation(case, f, a, b, integration_cls=Integration, uq_cls=uq_cls, ref=ref)
+        op.grid = make_local_grid(case, a, b)
     else:
         f = op.f
     if strat == 'es':
         from sparseSpACE.spatiallyAdaptiveExtendSplit import SpatiallyAdaptiveExtendScheme
         eo = make_error_calculator(case)
-        sa = SpatiallyAdaptiveExtendScheme(a, b, operation=op, norm=norm_of(case), version=case.get('version', 0),
-                                           number_of_refinements_before_extend=case.get('nrbe', 1),
-                                           automatic_extend_split=case.get('auto', False),
-                                           split_single_dim=case.get('single_dim', False))
+        sa = wrap(SpatiallyAdaptiveExtendScheme)(a, b, operation=op, norm=norm_of(case), version=case.get('version', 0),
+                                                 number_of_refinements_before_extend=case.get('nrbe', 1),
+                                                 automatic_extend_split=case.get('auto', False),
+                                                 split_single_dim=case.get('single_dim', False),
+                                                 no_initial_splitting=case.get('no_initial_splitting', False),
+                                                 dim_adaptive=case.get('es_dim_adaptive', False))
         return sa, op, f, eo
+    if strat == 'cell':
+        from sparseSpACE.spatiallyAdaptiveCell import SpatiallyAdaptiveCellScheme
+        eo = make_error_calculator(case)
+        return wrap(SpatiallyAdaptiveCellScheme)(a, b, operation=op, norm=norm_of(case)), op, f, eo
     if strat == 'std':
         from sparseSpACE.StandardCombi import StandardCombi
-        return StandardCombi(a, b, operation=op, norm=norm_of(case)), op, f, None
+        return wrap(StandardCombi)(a, b, operation=op, norm=norm_of(case)), op, f, None
     if strat == 'da':
         from sparseSpACE.DimAdaptiveCombi import DimAdaptiveCombi
-        return DimAdaptiveCombi(a, b, operation=op, norm=norm_of(case)), op, f, None
+        return wrap(DimAdaptiveCombi)(a, b, operation=op, norm=norm_of(case)), op, f, None
     raise ValueError(strat)
 
 
@@ -253,19 +310,28 @@ def point_key(p):
 # ---------------------------------------------------------------------------------------------- logging Integration
 
 
-def make_logging_integration():
-    """Integration subclass that records the bookkeeping events of C05 (see coq/Model/Accum.v):
-    [0] initialize, [1,id] area_preprocessing, [2,id,x,to_total,to_container] evaluate_area with x = partial*coefficient,
-    [3,[ids]] process_removed_objects, [4] initialize_evaluation_dimension_wise, [5,x] calculate_operation_dimension_wise."""
+def make_logging_integration(base=None):
+    """Integration (or UncertaintyQuantification, ... : `base`) subclass that records the bookkeeping events of C05 (see
+    coq/Model/Accum.v):
+    [0] initialize, [1,id] area_preprocessing,
+    [2,id,x,to_total,to_container,main] evaluate_area with x = partial*coefficient; main = the call was made inside the driver's
+        compute_solutions (the strategy instance sets operation.phase, see mark_main_evaluation), otherwise it is a SIDE evaluation
+        (twin errors, temporary parent areas, ...),
+    [3,[ids]] process_removed_objects, [4] initialize_evaluation_dimension_wise, [5,x] calculate_operation_dimension_wise,
+    [8,id,name] evaluate_area_for_error_estimates (benefit / parent estimates; must not touch any accumulator),
+    [9,id,x] compute_subcell_with_interpolation of the cell scheme (x = integral*coefficient), [10] reset_result.
+    ([11] reinit_new_objects is appended by the C05 driver: the container is not an object the operation sees.)"""
     import numpy as np
     from sparseSpACE.GridOperation import Integration
+    base = base or Integration
 
-    class LoggingIntegration(Integration):
+    class LoggingIntegration(base):
         def __init__(self, *a, **k):
             super().__init__(*a, **k)
             self.events = []
             self._ids = {}
             self._keep = []
+            self.phase = 'side'
 
         def aid(self, area):
             k = id(area)
@@ -293,16 +359,32 @@ def make_logging_integration():
             super().initialize()
             self.events.append([0])
 
+        def reset_result(self):
+            super().reset_result()
+            self.events.append([10])
+
         def area_preprocessing(self, area):
             super().area_preprocessing(area)
             self.events.append([1, self.aid(area)])
 
         def evaluate_area(self, area, levelvector, componentgrid_info, refinement_container, additional_info,
                           apply_to_combi_result=True):
-            ret, got = self._capture(self.grid, lambda: Integration.evaluate_area(
+            ret, got = self._capture(self.grid, lambda: base.evaluate_area(
                 self, area, levelvector, componentgrid_info, refinement_container, additional_info, apply_to_combi_result))
             x = got[-1] * componentgrid_info.coefficient
-            self.events.append([2, self.aid(area), [fl(v) for v in x], bool(apply_to_combi_result), refinement_container is not None])
+            self.events.append([2, self.aid(area), [fl(v) for v in x], bool(apply_to_combi_result), refinement_container is not None,
+                                self.phase == 'main'])
+            return ret
+
+        def evaluate_area_for_error_estimates(self, area, levelvector, componentgrid_info, refinement_container, additional_info):
+            self.events.append([8, self.aid(area), str(getattr(additional_info, 'error_name', None))])
+            return super().evaluate_area_for_error_estimates(area, levelvector, componentgrid_info, refinement_container, additional_info)
+
+        def compute_subcell_with_interpolation(self, cell, subcell, coefficient, refinement_container):
+            ret = super().compute_subcell_with_interpolation(cell, subcell, coefficient, refinement_container)
+            integral, coeff = subcell.sub_integrals[-1]
+            x = np.atleast_1d(np.asarray(integral, dtype=float)).ravel() * coeff
+            self.events.append([9, self.aid(subcell), [fl(v) for v in x]])
             return ret
 
         def process_removed_objects(self, removed_objects):
@@ -314,12 +396,28 @@ def make_logging_integration():
             self.events.append([4])
 
         def calculate_operation_dimension_wise(self, gridPointCoordsAsStripes, grid_point_levels, component_grid):
-            ret, got = self._capture(self.grid, lambda: Integration.calculate_operation_dimension_wise(
+            ret, got = self._capture(self.grid, lambda: base.calculate_operation_dimension_wise(
                 self, gridPointCoordsAsStripes, grid_point_levels, component_grid))
             x = got[-1] * component_grid.coefficient
             self.events.append([5, [fl(v) for v in x]])
             return ret
     return LoggingIntegration
+
+
+def mark_main_evaluation(cls):
+    """Strategy subclass whose compute_solutions (the driver's evaluation of the new areas on all component grids) sets
+    operation.phase = 'main' while it runs: every evaluate_area call outside of it is a side evaluation."""
+    class Marked(cls):
+        def compute_solutions(self, areas, evaluation_array):
+            prev = getattr(self.operation, 'phase', 'side')
+            self.operation.phase = 'main'
+            try:
+                return super().compute_solutions(areas, evaluation_array)
+            finally:
+                self.operation.phase = prev
+    Marked.__name__ = cls.__name__
+    Marked.__qualname__ = cls.__qualname__
+    return Marked
 
 
 def guard_dimadaptive(da, events=None):
